@@ -94,6 +94,15 @@ func cornerTemplates() []string {
 			}
 		}
 	}
+	// corner to corner: a bishop or queen on its own corner takes the rook on the diagonally opposite corner (it does not attack
+	// the castling path from there), the victim still holds that right
+	for _, f := range []string{
+		"4k2r/8/8/8/8/8/8/B3K3 w k - 0 13", "r3k3/8/8/8/8/8/8/4K2B w q - 0 13", "b3k3/8/8/8/8/8/8/4K2R b K - 0 13", "4k2b/8/8/8/8/8/8/R3K3 b Q - 0 13",
+		"4k2r/8/8/8/8/8/8/Q3K3 w k - 0 13", "r3k3/8/8/8/8/8/8/4K2Q w q - 0 13", "q3k3/8/8/8/8/8/8/4K2R b K - 0 13", "4k2q/8/8/8/8/8/8/R3K3 b Q - 0 13",
+		"r3k2r/8/8/8/8/8/8/B3K2R w Kkq - 0 13", "r3k2r/8/8/8/8/8/8/R3K2B w Qkq - 0 13",
+	} {
+		out = append(out, f)
+	}
 	return out
 }
 
